@@ -1,16 +1,17 @@
 (* C28 Sample-based tracks timestamp and sequence RTP without drift.
    Statements only; proofs live in Proofs/SampleTrack.v.
-   [run a rate (init a ts0 seq0) xs] is the transcription of
-   TrackLocalStaticSample.WriteSample over the sample list [xs], with the
-   pion/rtp packetizer/sequencer contract, parametrised by the arithmetic [a]
-   used for the float64 expressions; it returns the packets of each sample.
-   [exact_arith] computes in exact multiples of 10^-9 tick.  The float64
-   instance [float_arith] is the one compared with the real code; the distance
-   between the two is the rounding the property itself allows ("within one
-   tick"), measured on every run by the direct oracle. *)
+   [run a rate (init a ts0 seq0) os] is the transcription of
+   TrackLocalStaticSample.WriteSample / GeneratePadding over the call list
+   [os] ([OSample x] or [OPad n]), with the pion/rtp packetizer/sequencer
+   contract, parametrised by the arithmetic [a] used for the float64
+   expressions; it returns the packets of each call.  [exact_arith] computes in
+   exact multiples of 10^-9 tick.  The float64 instance [float_arith] (IEEE
+   binary64, round to nearest even, on Q) is the one compared with the real
+   code.  For the specification a padding burst counts as a sample of duration
+   zero cut into n packets ([as_sample]): it consumes sequence numbers, no time. *)
 From Coq Require Import String NArith ZArith Bool List.
 Import ListNotations.
-From Verif Require Import Common.Base Model.SampleTrack Proofs.SampleTrack.
+From Verif Require Import Common.Base Model.SampleTrack Proofs.SampleTrack Proofs.SampleTrackFloat.
 
 (* No drift, for every sample sequence of any length: in exact arithmetic the
    timestamp of every packet of sample k is
@@ -19,17 +20,59 @@ From Verif Require Import Common.Base Model.SampleTrack Proofs.SampleTrack.
    per-sample floors telescope.  [sample_ok]: durations are non-negative and a
    sample (with the gap it reports) stays below 2^32-1 ticks, which keeps the
    uint32() conversions in range. *)
-Theorem c28_no_drift : forall rate ts0 seq0 xs k pk p,
-  (ts0 < 4294967296)%N -> Forall (sample_ok rate) xs ->
-  nth_error (run exact_arith rate (init exact_arith ts0 seq0) xs) k = Some pk -> In p pk ->
-  k_ts p = ideal_ts rate ts0 xs k.
+Theorem c28_no_drift : forall rate ts0 seq0 os k pk p,
+  (ts0 < 4294967296)%N -> Forall (op_ok rate) os ->
+  nth_error (run exact_arith rate (init exact_arith ts0 seq0) os) k = Some pk -> In p pk ->
+  k_ts p = ideal_ts rate ts0 (map as_sample os) k.
 Proof. exact no_drift. Qed.
 Print Assumptions c28_no_drift.
 
+(* "Within one tick of rounding": the float64 computation of the real code
+   (every float64 operation of WriteSample and of Duration.Seconds() rounded to
+   nearest even) puts on every packet of call k a timestamp that differs from
+   the ideal one by at most one tick (modulo 2^32), for every history in which
+   each call stays below 2^31 ticks (reported gap included; durations >= 0) and
+   the whole history stays below 2^48 ticks and 2^48 calls ([hist_ok]); no bound
+   on the clock rate or on PrevDroppedPackets beyond those.  The float64
+   rounding errors do add up over a history (the remainder carries them along,
+   it does not cancel them), but each is at most 12*2^-53 of the ticks the call
+   adds plus 6*2^-53, so after 2^48 ticks and 2^48 calls the float64 code's
+   elapsed time T + remainder is within 9/16 tick of the exact one; as the
+   remainder stays in [0, 1+2^-53] the integer part T is within one of the
+   exact floor.  [within_one x y]: x = y, x = y+1 or y = x+1 (mod 2^32). *)
+Theorem c28_float_within_one_tick : forall rate ts0 seq0 os k pk p,
+  hist_ok rate os ->
+  nth_error (run float_arith rate (init float_arith ts0 seq0) os) k = Some pk -> In p pk ->
+  within_one (k_ts p) (ideal_ts rate ts0 (map as_sample os) k).
+Proof. exact float_within_one_tick. Qed.
+Print Assumptions c28_float_within_one_tick.
+
+(* the same, float64 instance against exact instance, packet by packet *)
+Theorem c28_float_vs_exact : forall rate ts0 seq0 os k pkf pke pf pe,
+  (ts0 < 4294967296)%N -> hist_ok rate os ->
+  nth_error (run float_arith rate (init float_arith ts0 seq0) os) k = Some pkf -> In pf pkf ->
+  nth_error (run exact_arith rate (init exact_arith ts0 seq0) os) k = Some pke -> In pe pke ->
+  within_one (k_ts pf) (k_ts pe).
+Proof. exact float_vs_exact. Qed.
+Print Assumptions c28_float_vs_exact.
+
+(* the two facts about binary64 rounding the bound rests on, for [rnd64] as
+   defined in the model: relative error at most 2^-53, integers below 2^53 exact *)
+Theorem c28_rnd64_relative_error : forall q : QArith_base.Q,
+  QArith_base.Qle (Qabs.Qabs (QArith_base.Qminus (rnd64 q) q))
+                  (QArith_base.Qmult SampleTrackRnd.ulp53 (Qabs.Qabs q)).
+Proof. exact SampleTrackRnd.rnd64_rel. Qed.
+Print Assumptions c28_rnd64_relative_error.
+
+Theorem c28_rnd64_int_exact : forall z : Z, (0 <= z < 9007199254740992)%Z ->
+  QArith_base.Qeq (rnd64 (QArith_base.inject_Z z)) (QArith_base.inject_Z z).
+Proof. exact SampleTrackRnd.rnd64_int_exact. Qed.
+Print Assumptions c28_rnd64_int_exact.
+
 (* every packet of one sample carries the same timestamp - in any arithmetic,
    hence also for the float64 computation of the real code *)
-Theorem c28_same_ts_within_sample : forall a rate xs s k pk p p',
-  nth_error (run a rate s xs) k = Some pk -> In p pk -> In p' pk -> k_ts p = k_ts p'.
+Theorem c28_same_ts_within_sample : forall a rate os s k pk p p',
+  nth_error (run a rate s os) k = Some pk -> In p pk -> In p' pk -> k_ts p = k_ts p'.
 Proof. exact same_ts. Qed.
 Print Assumptions c28_same_ts_within_sample.
 
@@ -37,19 +80,20 @@ Print Assumptions c28_same_ts_within_sample.
    seq0 + (packets of earlier samples) + (dropped counts reported up to and
    including sample k) + j  mod 2^16, i.e. numbers increase by one per packet
    except that a sample reporting N dropped packets first skips N numbers; and
-   sample k yields as many packets as the payloader cut it into *)
-Theorem c28_seq : forall a rate ts0 seq0 xs k pk j p,
-  nth_error (run a rate (init a ts0 seq0) xs) k = Some pk -> nth_error pk j = Some p ->
-  k_seq p = ((seq0 + seq_before xs k + N.of_nat j) mod 65536)%N /\
-  (exists x, nth_error xs k = Some x /\ length pk = s_npk x).
+   sample k yields as many packets as the payloader cut it into; a
+   GeneratePadding(n) call yields n packets, numbered like any others *)
+Theorem c28_seq : forall a rate ts0 seq0 os k pk j p,
+  nth_error (run a rate (init a ts0 seq0) os) k = Some pk -> nth_error pk j = Some p ->
+  k_seq p = ((seq0 + seq_before (map as_sample os) k + N.of_nat j) mod 65536)%N /\
+  (exists o, nth_error os k = Some o /\ length pk = s_npk (as_sample o)).
 Proof. exact seq_numbers. Qed.
 Print Assumptions c28_seq.
 
 (* 30 fps at 90 kHz: 33.333333 ms is 2999.99997 ticks; timestamps follow the
    floor of the running total, both in exact and in float64 arithmetic *)
 Example c28_30fps :
-  let xs := repeat (mkSample 33333333 0 2) 4 in
-  Forall (sample_ok 90000) xs /\
+  let xs := repeat (OSample (mkSample 33333333 0 2)) 4 in
+  Forall (op_ok 90000) xs /\
   map (map k_ts) (run exact_arith 90000 (init exact_arith 1000 65535) xs)
     = [[1000; 1000]; [3999; 3999]; [6999; 6999]; [9999; 9999]]%N /\
   map (map k_ts) (run float_arith 90000 (init float_arith 1000 65535) xs)
@@ -60,7 +104,19 @@ Proof. exact ex_30fps. Qed.
 
 (* a dropped-packet report skips numbers and time *)
 Example c28_dropped :
-  let xs := [mkSample 20000000 0 1; mkSample 20000000 3 1; mkSample 20000000 0 0; mkSample 20000000 0 1] in
+  let xs := map OSample [mkSample 20000000 0 1; mkSample 20000000 3 1; mkSample 20000000 0 0; mkSample 20000000 0 1] in
   run exact_arith 8000 (init exact_arith 5 10) xs
     = [[mkRpkt 10 5]; [mkRpkt 14 645]; []; [mkRpkt 15 965]]%N.
 Proof. vm_compute. reflexivity. Qed.
+
+(* padding between samples: takes sequence numbers, carries the timestamp the
+   next sample will carry, moves no time; the history satisfies [hist_ok] *)
+Example c28_padding :
+  let os := [OSample (mkSample 33333333 0 2); OPad 3; OSample (mkSample 33333333 2 1); OSample (mkSample 33333333 0 1)] in
+  hist_ok 90000 os /\
+  run float_arith 90000 (init float_arith 1000 65534) os
+    = [[mkRpkt 65534 1000; mkRpkt 65535 1000]; [mkRpkt 0 3999; mkRpkt 1 3999; mkRpkt 2 3999];
+       [mkRpkt 5 9999]; [mkRpkt 6 12999]]%N /\
+  run exact_arith 90000 (init exact_arith 1000 65534) os
+    = run float_arith 90000 (init float_arith 1000 65534) os.
+Proof. split; [exact ex_hist_ok|split; vm_compute; reflexivity]. Qed.
